@@ -60,6 +60,8 @@ type flow struct {
 	sentBytes   int64
 	chunks      []int64 // cumulative end offsets of the chunks Write cut (message mode)
 	chunkIdx    int
+	wWritable   bool // the session admitted writes when the pending Write was issued
+	wEvents     int  // events executed when it was issued
 	rcall       *Call
 	rbuf        []byte
 	ri          int
@@ -230,6 +232,10 @@ func (p *Pair) Pump() bool {
 				s.Fail("Write(%d bytes) at end %d returned %d", n, w, f.wcall.N)
 				return false
 			}
+			if !f.wWritable && s.Events == f.wEvents {
+				s.Fail("Write(%d bytes) at end %d was admitted although a full send window of segments was pending when it was issued and nothing happened in between", n, w)
+				return false
+			}
 			if !p.Cfg.Opts[w].Stream {
 				for off := 0; off < n; off += p.MSS[w] {
 					f.chunks = append(f.chunks, f.sentBytes+int64(min(n, off+p.MSS[w])))
@@ -251,6 +257,7 @@ func (p *Pair) Pump() bool {
 			b := f.wbuf[:n]
 			FillPayload(b, f.sid, f.sentBytes)
 			sess := p.Sess[w]
+			f.wWritable, f.wEvents = sess.VerifWritable(), s.Events
 			f.wcall = s.Go("Write", func() (int, error, any) { n, err := sess.Write(b); return n, err, nil })
 			issued = true
 		}
